@@ -15,6 +15,10 @@ func Remainder(left, right value.Value) error {
 		switch right.Type() {
 		case value.IntegerType: // INTEGER %= INTEGER
 			rv := value.Unwrap[*value.Integer](right)
+			if rv.Value == 0 {
+				lv.IsNAN = true
+				return errors.WithStack(fmt.Errorf("Division by zero"))
+			}
 			// nolint: gocritic
 			if lv.IsPositiveInf || rv.IsPositiveInf {
 				lv.Value = 0
@@ -30,6 +34,10 @@ func Remainder(left, right value.Value) error {
 				return errors.WithStack(fmt.Errorf("FLOAT literal could not remainder to INTEGER"))
 			}
 			rv := value.Unwrap[*value.Float](right)
+			if int64(rv.Value) == 0 {
+				lv.IsNAN = true
+				return errors.WithStack(fmt.Errorf("division by zero"))
+			}
 			// nolint: gocritic
 			if lv.IsPositiveInf || rv.IsPositiveInf {
 				lv.Value = 0
@@ -48,6 +56,10 @@ func Remainder(left, right value.Value) error {
 		switch right.Type() {
 		case value.IntegerType: // FLOAT %= INTEGER
 			rv := value.Unwrap[*value.Integer](right)
+			if rv.Value == 0 {
+				lv.IsNAN = true
+				return errors.WithStack(fmt.Errorf("division by zero"))
+			}
 			// nolint: gocritic
 			if lv.IsPositiveInf || rv.IsPositiveInf {
 				lv.Value = 0
@@ -60,6 +72,10 @@ func Remainder(left, right value.Value) error {
 			}
 		case value.FloatType: // FLOAT %= FLOAT
 			rv := value.Unwrap[*value.Float](right)
+			if int64(rv.Value) == 0 {
+				lv.IsNAN = true
+				return errors.WithStack(fmt.Errorf("division by zero"))
+			}
 			// nolint: gocritic
 			if lv.IsPositiveInf || rv.IsPositiveInf {
 				lv.Value = 0
@@ -78,9 +94,15 @@ func Remainder(left, right value.Value) error {
 		switch right.Type() {
 		case value.IntegerType: // RTIME %= INTEGER
 			rv := value.Unwrap[*value.Integer](right)
+			if time.Duration(rv.Value)*time.Second == 0 {
+				return errors.WithStack(fmt.Errorf("division by zero"))
+			}
 			lv.Value %= (time.Duration(rv.Value) * time.Second)
 		case value.FloatType: // RTIME %= FLOAT
 			rv := value.Unwrap[*value.Float](right)
+			if time.Duration(rv.Value)*time.Second == 0 {
+				return errors.WithStack(fmt.Errorf("division by zero"))
+			}
 			lv.Value %= (time.Duration(rv.Value) * time.Second)
 		default:
 			return errors.WithStack(fmt.Errorf("invalid division RTIME type, got %s", right.Type()))
